@@ -142,6 +142,7 @@ class Repo:
         if not os.path.isdir(self.pkg):
             raise AnalysisError(f'no package directory {self.pkg}')
         self.modules: dict[str, ModuleInfo] = {}
+        self.canon_counts: dict[str, int] = {}
         present = sorted(f[:-3] for f in os.listdir(self.pkg) if f.endswith('.py'))
         for name in present:
             path = os.path.join(self.pkg, name + '.py')
@@ -151,6 +152,9 @@ class Repo:
                 tree = ast.parse(src, filename=path)
             except SyntaxError as e:
                 raise AnalysisError(f'{path} does not parse: {e}') from e
+            from .canon import canonicalise
+            for k, v in canonicalise(tree).items():
+                self.canon_counts[k] = self.canon_counts.get(k, 0) + v
             self.modules[name] = ModuleInfo(name, path, src, tree, lines=src.splitlines())
         for m in ('_wcparse', '_wcmatch', 'glob', 'fnmatch', 'pathlib', 'posix', 'util', 'wcmatch'):
             if m not in self.modules:
@@ -581,6 +585,13 @@ class ConstEval:
                 return len(args[0])
             if f.id == 'int':
                 return int(*args)
+            if f.id in ('dict', 'list', 'sorted', 'str', 'chr', 'range', 'min', 'max') and not kw:
+                try:
+                    r = {'dict': dict, 'list': list, 'sorted': sorted, 'str': str, 'chr': chr, 'range': range, 'min': min,
+                         'max': max}[f.id](*args)
+                except Exception as e:
+                    raise Unknown(str(e)) from e
+                return list(r) if isinstance(r, range) else r
             raise Unknown(f.id)
         if isinstance(f, ast.Attribute):
             # str.format on a constant template
@@ -599,6 +610,18 @@ class ConstEval:
                         return base.format(*args, **kws)
                     except (IndexError, KeyError) as e:
                         raise Unknown(str(e)) from e
+            if any(f.attr in v for v in PURE_METHODS.values()):
+                try:
+                    base = self.eval(f.value)
+                except Unknown:
+                    base = _NOBASE
+                if isinstance(base, (str, bytes, dict, tuple, frozenset, list)) and f.attr in PURE_METHODS[type(base).__name__]:
+                    args = [self.eval(a) for a in n.args]
+                    try:
+                        r = getattr(base, f.attr)(*args, **kw)
+                    except Exception as e:  # the constant expression itself fails: not a constant we can use
+                        raise Unknown(str(e)) from e
+                    return list(r) if f.attr in ('items', 'keys', 'values') else r
             target = self.eval(f)
             if isinstance(target, ExtRef):
                 args = [self.eval(a) for a in n.args]
@@ -612,6 +635,64 @@ class ConstEval:
                         return re.escape(args[0])
             raise Unknown(norm_src(f))
         raise Unknown(norm_src(f))
+
+
+    # comprehensions over constant iterables (constant propagation through a finite unrolling)
+    def _comp(self, n: Any) -> Any:
+        def rec(gi: int, env: dict[str, Any]) -> Any:
+            sub = ConstEval(self.repo, self.mod, {**self.extra, **env})
+            if gi == len(n.generators):
+                if isinstance(n, ast.DictComp):
+                    yield (sub.eval(n.key), sub.eval(n.value))
+                else:
+                    yield sub.eval(n.elt)
+                return
+            g = n.generators[gi]
+            if g.is_async:
+                raise Unknown('async comprehension')
+            it = sub.eval(g.iter)
+            if isinstance(it, dict):
+                it = list(it)
+            if not isinstance(it, (list, tuple, frozenset, str, bytes, range)):
+                raise Unknown('comprehension over non-constant')
+            if len(it) > 100000:
+                raise Unknown('comprehension too large')
+            for item in (sorted(it, key=repr) if isinstance(it, frozenset) else it):
+                env2 = dict(env)
+                _bind(g.target, item, env2)
+                s2 = ConstEval(self.repo, self.mod, {**self.extra, **env2})
+                if all(s2.eval(c) for c in g.ifs):
+                    yield from rec(gi + 1, env2)
+        return rec(0, {})
+
+    def e_ListComp(self, n: ast.ListComp) -> Any:
+        return list(self._comp(n))
+
+    def e_GeneratorExp(self, n: ast.GeneratorExp) -> Any:
+        return list(self._comp(n))
+
+    def e_SetComp(self, n: ast.SetComp) -> Any:
+        return frozenset(self._comp(n))
+
+    def e_DictComp(self, n: ast.DictComp) -> Any:
+        return dict(self._comp(n))
+
+
+_NOBASE = object()
+_STRM = {'replace', 'lower', 'upper', 'join', 'strip', 'lstrip', 'rstrip', 'encode', 'decode', 'startswith', 'endswith', 'split',
+         'format', 'casefold', 'swapcase', 'title'}
+PURE_METHODS = {'str': _STRM, 'bytes': _STRM, 'dict': {'items', 'keys', 'values', 'get'}, 'tuple': {'index', 'count'},
+                'frozenset': {'union', 'intersection', 'difference'}, 'list': {'index', 'count'}}
+
+
+def _bind(t: ast.AST, v: Any, env: dict[str, Any]) -> None:
+    if isinstance(t, ast.Name):
+        env[t.id] = v
+    elif isinstance(t, (ast.Tuple, ast.List)) and isinstance(v, (tuple, list)) and len(v) == len(t.elts):
+        for tt, vv in zip(t.elts, v):
+            _bind(tt, vv, env)
+    else:
+        raise Unknown('comprehension target')
 
 
 def walk_no_nested(node: ast.AST):
